@@ -1,4 +1,1054 @@
 package main
 
-// DexPlan is set-up data of the liquidity scenario.
-type DexPlan struct{}
+import (
+	"fmt"
+	"sort"
+	"time"
+
+	sdk "github.com/cosmos/cosmos-sdk/types"
+	banktypes "github.com/cosmos/cosmos-sdk/x/bank/types"
+
+	"github.com/comdex-official/comdex/x/liquidity/amm"
+	liqtypes "github.com/comdex-official/comdex/x/liquidity/types"
+	rewardstypes "github.com/comdex-official/comdex/x/rewards/types"
+)
+
+// DexPlan is set-up data of the liquidity scenario. Pairs / pools are always re-read from chain state by generators and
+// oracles (pools can also be created at run time), the plan only keeps what cannot be read back.
+type DexPlan struct {
+	AppID   uint64   // primary liquidity app (id differs from pair and pool ids)
+	AppIDs  []uint64 // every app with liquidity activity
+	Assets  []*AssetInfo
+	Traded  []*AssetInfo // assets that may be part of a pair
+	Reward  *AssetInfo   // never part of a pair: gauge deposits in this denom are the only flow of it
+	Users   []int
+	T       *dexTracker
+	JumpW   int
+	GaugeW  int
+	MagUnit sdk.Int
+}
+
+const dexActors = 11
+
+// drawDexConfig draws the swarm configuration of a dex run.
+func drawDexConfig(r *Rng, cfg *Config) {
+	k := cfg.Knobs
+	k["n_users"] = r.Range(5, 10)
+	k["n_assets"] = r.Range(3, 4)
+	k["n_pairs"] = r.Range(1, 3)
+	k["n_ranged"] = r.Range(0, 2)
+	k["filler_apps"] = r.Range(1, 2) // liquidity app id becomes 2 or 3
+	k["second_app"] = int64(r.Intn(2))
+	k["batch_size"] = r.Range(1, 3)
+	k["batch_size_b"] = r.Range(1, 3)
+	k["tick_prec"] = r.Range(2, 4)
+	k["swap_fee_permille"] = []int64{0, 3, 30}[r.Intn(3)]
+	k["withdraw_fee_permille"] = []int64{0, 3, 50}[r.Intn(3)]
+	k["max_lifespan_s"] = []int64{20, 120, 3600, 86400}[r.Intn(4)]
+	k["price_limit_pct"] = []int64{5, 10, 10, 30}[r.Intn(4)]
+	k["min_init_deposit"] = []int64{100, 1000000}[r.Intn(2)]
+	k["mag"] = []int64{9, 9, 12, 12, 18, 30}[r.Intn(6)] // funding magnitude class 10^mag
+	k["price_class"] = int64(r.Intn(5))                // pool price magnitude
+	k["twa_batch"] = []int64{1, 1, 2}[r.Intn(3)]
+	k["accepted_diff"] = []int64{20, 40, 100}[r.Intn(3)]
+	k["path_mode"] = []int64{pathFlat, pathWalk, pathWalk, pathSaw}[r.Intn(4)]
+	k["vol"] = r.Range(1, 12)
+	k["pkt_fault"] = 0
+	k["oog"] = []int64{0, 0, 20, 60}[r.Intn(4)]
+	k["gap_profile"] = []int64{0, 0, 0, 1}[r.Intn(4)]
+	k["unsolicited"] = int64(r.Intn(3)) // 0 = never
+	k["jump_w"] = []int64{0, 1, 2, 4}[r.Intn(4)]
+	k["gauge_w"] = []int64{0, 1, 2}[r.Intn(3)]
+	k["n_gauges"] = r.Range(0, 2)
+	k["fee_asset_traded"] = int64(r.Intn(2))
+}
+
+func (w *World) dexParams(app uint64) liqtypes.GenericParams {
+	p, _ := w.App.LiquidityKeeper.GetGenericLiquidityParams(w.Ctx(), app)
+	return p
+}
+
+func mustTx(w *World, a *Actor, what string, msgs ...sdk.Msg) {
+	res := w.DeliverMsgs(a, defaultGas, msgs...)
+	if !res.OK() {
+		panic(fmt.Sprintf("dex set-up: %s failed: %s", what, res.Log))
+	}
+}
+
+func permille(n int64) sdk.Dec { return sdk.NewDecWithPrec(n, 3) }
+
+// tick helpers (generator side only)
+func tickDown(p sdk.Dec, prec int) sdk.Dec { return amm.PriceToDownTick(p, prec) }
+func tickUp(p sdk.Dec, prec int) sdk.Dec   { return amm.PriceToUpTick(p, prec) }
+
+func decFrac(n, d int64) sdk.Dec { return sdk.NewDec(n).QuoInt64(d) }
+
+// setupDex builds apps, assets, liquidity params, pairs and pools (through signed txs) and funds the users.
+func setupDex(w *World) {
+	cfg := &w.Cfg
+	r := NewRng(MixSeed(cfg.Seed, "setup", 0))
+	p := &DexPlan{JumpW: int(cfg.K("jump_w")), GaugeW: int(cfg.K("gauge_w"))}
+	w.Dex = p
+
+	fillers := [][2]string{{"harbor", "hbr"}, {"commodo", "cmdo"}}
+	var all []uint64
+	for i := 0; i < int(cfg.K("filler_apps")); i++ {
+		all = append(all, w.addApp(fillers[i][0], fillers[i][1]))
+	}
+	p.AppID = w.addApp("cswap", "cswap")
+	p.AppIDs = []uint64{p.AppID}
+	if cfg.KB("second_app") {
+		p.AppIDs = append(p.AppIDs, w.addApp("dexter", "dxt"))
+	}
+
+	// assets
+	oidx := 0
+	mk := func(name, denom string, dec int, oracle bool) *AssetInfo {
+		a := &AssetInfo{Name: name, Denom: denom, Decimals: pow10(dec), Oracle: oracle, OIdx: -1}
+		a.ID = w.addAsset(name, denom, a.Decimals, oracle, false)
+		if oracle {
+			a.OIdx = oidx
+			oidx++
+		}
+		p.Assets = append(p.Assets, a)
+		return a
+	}
+	if r.Bool() {
+		mk("FILLER", "ufiller", 6, false)
+	}
+	fee := mk("CMDX", "ucmdx", 6, true)
+	names := [][2]string{{"ATOM", "uatom"}, {"OSMO", "uosmo"}, {"CMST", "ucmst"}, {"USDC", "uusdc"}}
+	nA := int(cfg.K("n_assets"))
+	for i := 0; i < nA; i++ {
+		dec := 6
+		if r.Chance(1, 5) {
+			dec = []int{8, 18}[r.Intn(2)]
+		}
+		// the first traded asset is always oracle priced (gauges need one priced side)
+		a := mk(names[i][0], names[i][1], dec, i == 0 || r.Chance(3, 4))
+		p.Traded = append(p.Traded, a)
+	}
+	if cfg.KB("fee_asset_traded") {
+		p.Traded = append(p.Traded, fee)
+	}
+	p.Reward = mk("REWARD", "ureward", 6, false)
+
+	// liquidity parameters per app
+	for i, app := range p.AppIDs {
+		gp, err := w.App.LiquidityKeeper.GetGenericParams(w.Ctx(), app)
+		if err != nil {
+			panic(err)
+		}
+		gp.BatchSize = uint64(cfg.K("batch_size"))
+		if i > 0 {
+			gp.BatchSize = uint64(cfg.K("batch_size_b"))
+		}
+		gp.TickPrecision = uint64(cfg.K("tick_prec"))
+		gp.SwapFeeRate = permille(cfg.K("swap_fee_permille"))
+		gp.WithdrawFeeRate = permille(cfg.K("withdraw_fee_permille"))
+		gp.MaxOrderLifespan = time.Duration(cfg.K("max_lifespan_s")) * time.Second
+		gp.MaxPriceLimitRatio = sdk.NewDecWithPrec(cfg.K("price_limit_pct"), 2)
+		gp.MinInitialDepositAmount = sdk.NewInt(cfg.K("min_init_deposit"))
+		if err := gp.Validate(); err != nil {
+			panic(err)
+		}
+		w.App.LiquidityKeeper.SetGenericParams(w.Ctx(), gp)
+	}
+
+	// users
+	nUsers := int(cfg.K("n_users"))
+	mag := int(cfg.K("mag"))
+	p.MagUnit = pow10(mag)
+	for i := 0; i < nUsers; i++ {
+		p.Users = append(p.Users, i)
+		var coins sdk.Coins
+		for _, a := range p.Traded {
+			if a.Denom == "ucmdx" {
+				continue
+			}
+			coins = coins.Add(sdk.NewCoin(a.Denom, p.MagUnit.MulRaw(r.Range(10, 1000))))
+		}
+		coins = coins.Add(sdk.NewCoin(p.Reward.Denom, sdk.NewInt(r.Range(1_000_000, 4_000_000_000_000))))
+		coins = coins.Add(sdk.NewCoin("ucmdx", p.MagUnit.MulRaw(r.Range(10, 1000)).AddRaw(100_000_000_000)))
+		w.Fund(w.Actors[i].Addr, coins)
+	}
+
+	// pairs: all unordered denom sets are distinct world-wide (lets the fill log be attributed to a pair by denoms)
+	type combo struct{ a, b *AssetInfo }
+	var combos []combo
+	for i := 0; i < len(p.Traded); i++ {
+		for j := i + 1; j < len(p.Traded); j++ {
+			if r.Bool() {
+				combos = append(combos, combo{p.Traded[i], p.Traded[j]})
+			} else {
+				combos = append(combos, combo{p.Traded[j], p.Traded[i]})
+			}
+		}
+	}
+	// deterministic shuffle
+	for i := len(combos) - 1; i > 0; i-- {
+		j := r.Intn(i + 1)
+		combos[i], combos[j] = combos[j], combos[i]
+	}
+	nPairs := int(cfg.K("n_pairs"))
+	if nPairs > len(combos) {
+		nPairs = len(combos)
+	}
+	ci := 0
+	creator := func() *Actor { return w.Actors[p.Users[r.Intn(len(p.Users))]] }
+	type pairRef struct {
+		app, id     uint64
+		base, quote *AssetInfo
+	}
+	var pairs []pairRef
+	for i := 0; i < nPairs; i++ {
+		c := combos[ci]
+		ci++
+		a := creator()
+		mustTx(w, a, "create pair", liqtypes.NewMsgCreatePair(p.AppID, a.Addr, c.a.Denom, c.b.Denom))
+		pairs = append(pairs, pairRef{p.AppID, w.App.LiquidityKeeper.GetLastPairID(w.Ctx(), p.AppID), c.a, c.b})
+	}
+	if len(p.AppIDs) > 1 && ci < len(combos) {
+		c := combos[ci]
+		ci++
+		a := creator()
+		app := p.AppIDs[1]
+		mustTx(w, a, "create pair (second app)", liqtypes.NewMsgCreatePair(app, a.Addr, c.a.Denom, c.b.Denom))
+		pairs = append(pairs, pairRef{app, w.App.LiquidityKeeper.GetLastPairID(w.Ctx(), app), c.a, c.b})
+	}
+
+	// pools: created in reverse pair order so that pool ids and pair ids are not aligned
+	priceClass := cfg.K("price_class")
+	nRanged := int(cfg.K("n_ranged"))
+	for i := len(pairs) - 1; i >= 0; i-- {
+		pr := pairs[i]
+		a := creator()
+		// reserves: y base units, x = price * y quote units
+		y := p.MagUnit.MulRaw(r.Range(1, 50)).QuoRaw(10)
+		var price sdk.Dec
+		switch priceClass {
+		case 0:
+			price = decFrac(r.Range(800, 1250), 1000)
+		case 1:
+			price = decFrac(r.Range(5, 200), 1000)
+		case 2:
+			price = decFrac(r.Range(5000, 90000), 1000)
+		case 3:
+			price = decFrac(r.Range(1, 99), 100000)
+		default:
+			price = decFrac(r.Range(100, 9000), 1)
+		}
+		x := price.MulInt(y).TruncateInt()
+		if x.LT(sdk.NewInt(2_000_000)) {
+			x = sdk.NewInt(2_000_000)
+		}
+		if y.LT(sdk.NewInt(2_000_000)) {
+			y = sdk.NewInt(2_000_000)
+		}
+		w.Fund(a.Addr, sdk.NewCoins(sdk.NewCoin(pr.quote.Denom, x.MulRaw(3)), sdk.NewCoin(pr.base.Denom, y.MulRaw(3))))
+		mustTx(w, a, "create pool", liqtypes.NewMsgCreatePool(pr.app, a.Addr, pr.id, sdk.NewCoins(sdk.NewCoin(pr.quote.Denom, x), sdk.NewCoin(pr.base.Denom, y))))
+		if nRanged > 0 && pr.app == p.AppID {
+			nRanged--
+			prec := int(cfg.K("tick_prec"))
+			p0 := tickDown(x.ToLegacyDec().Quo(y.ToLegacyDec()), prec)
+			minP := tickDown(p0.Mul(decFrac(r.Range(50, 95), 100)), prec)
+			maxP := tickDown(p0.Mul(decFrac(r.Range(105, 200), 100)), prec)
+			init := p0
+			switch r.Intn(6) {
+			case 0:
+				init = minP
+			case 1:
+				init = maxP
+			}
+			b := creator()
+			w.Fund(b.Addr, sdk.NewCoins(sdk.NewCoin(pr.quote.Denom, x), sdk.NewCoin(pr.base.Denom, y)))
+			res := w.DeliverMsgs(b, defaultGas, liqtypes.NewMsgCreateRangedPool(pr.app, b.Addr, pr.id,
+				sdk.NewCoins(sdk.NewCoin(pr.quote.Denom, x.QuoRaw(2)), sdk.NewCoin(pr.base.Denom, y.QuoRaw(2))), minP, maxP, init))
+			if res.OK() {
+				w.Stats.Probe("dex.setup_ranged_pool")
+			}
+		}
+	}
+
+	// oracle
+	w.SetupBand(uint64(cfg.K("twa_batch")), cfg.K("accepted_diff"))
+	w.Band.Prices = make([]uint64, oidx)
+	for _, a := range p.Assets {
+		if a.Oracle {
+			w.Band.Prices[a.OIdx] = uint64(r.Range(50000, 50000000))
+		}
+	}
+	w.touchModuleAccounts()
+	p.T = newDexTracker(w)
+	w.OnBlock = append(w.OnBlock, func(w *World) { w.Dex.T.onBlock(w) })
+}
+
+// dexPostWarm creates the initial gauges (needs active oracle prices) and a few farmers.
+func dexPostWarm(w *World) {
+	cfg := &w.Cfg
+	r := NewRng(MixSeed(cfg.Seed, "setup", 1))
+	p := w.Dex
+	pools := w.dexPools()
+	if len(pools) == 0 {
+		return
+	}
+	for i := 0; i < int(cfg.K("n_gauges")); i++ {
+		a := w.Actors[p.Users[r.Intn(len(p.Users))]]
+		pool := pools[r.Intn(len(pools))]
+		ev := w.genGauge(r, a, pool, true)
+		if ev == nil {
+			continue
+		}
+		res := w.Apply(ev)
+		if res.Tx.OK() {
+			w.Stats.Probe("dex.setup_gauge")
+		}
+	}
+}
+
+// ---------- chain-state views used by generators ----------
+
+type dexPool struct {
+	liqtypes.Pool
+	Pair liqtypes.Pair
+}
+
+func (w *World) dexApps() []uint64 {
+	apps, _ := w.App.AssetKeeper.GetApps(w.Ctx())
+	var out []uint64
+	for _, a := range apps {
+		out = append(out, a.Id)
+	}
+	sort.Slice(out, func(i, j int) bool { return out[i] < out[j] })
+	return out
+}
+
+func (w *World) dexPairs() []liqtypes.Pair {
+	var out []liqtypes.Pair
+	ctx := w.Ctx()
+	for _, app := range w.Dex.AppIDs {
+		out = append(out, w.App.LiquidityKeeper.GetAllPairs(ctx, app)...)
+	}
+	return out
+}
+
+func (w *World) dexPools() []dexPool {
+	var out []dexPool
+	ctx := w.Ctx()
+	for _, app := range w.Dex.AppIDs {
+		for _, pl := range w.App.LiquidityKeeper.GetAllPools(ctx, app) {
+			pair, _ := w.App.LiquidityKeeper.GetPair(ctx, app, pl.PairId)
+			out = append(out, dexPool{pl, pair})
+		}
+	}
+	return out
+}
+
+func (w *World) dexUser(r *Rng) *Actor { return w.Actors[w.Dex.Users[r.Intn(len(w.Dex.Users))]] }
+
+// dexRefPrice is the price around which orders are generated.
+func (w *World) dexRefPrice(pair liqtypes.Pair) sdk.Dec {
+	if pair.LastPrice != nil {
+		return *pair.LastPrice
+	}
+	ctx := w.Ctx()
+	for _, pl := range w.App.LiquidityKeeper.GetPoolsByPair(ctx, pair.AppId, pair.Id) {
+		if pl.Disabled {
+			continue
+		}
+		rx := w.Bal(pl.GetReserveAddress(), pair.QuoteCoinDenom)
+		ry := w.Bal(pl.GetReserveAddress(), pair.BaseCoinDenom)
+		if rx.IsPositive() && ry.IsPositive() {
+			return rx.ToLegacyDec().Quo(ry.ToLegacyDec())
+		}
+	}
+	return sdk.OneDec()
+}
+
+func logAmt(r *Rng, lo, hi sdk.Int) sdk.Int {
+	if hi.LTE(lo) {
+		return lo
+	}
+	// log-uniform via bit length
+	lb, hb := lo.BigInt().BitLen(), hi.BigInt().BitLen()
+	bits := int(r.Range(int64(lb), int64(hb)))
+	v := sdk.NewIntFromBigInt(r.BigBelow(pow2(bits)))
+	if v.LT(lo) {
+		v = lo
+	}
+	if v.GT(hi) {
+		v = hi
+	}
+	return v
+}
+
+func pow2(n int) *bigInt { return new(bigInt).Lsh(bigOne, uint(n)) }
+
+func (w *World) dexLifespan(r *Rng, gp liqtypes.GenericParams) time.Duration {
+	max := gp.MaxOrderLifespan
+	switch r.Intn(9) {
+	case 0:
+		return 0
+	case 1:
+		return max
+	case 2:
+		return max + time.Second // rejected
+	case 3, 4:
+		return time.Duration(r.Range(1, 15)) * time.Second
+	default:
+		d := time.Duration(r.Range(5, 600)) * time.Second
+		if d > max {
+			d = max
+		}
+		return d
+	}
+}
+
+// feeOn returns a generous upper estimate of the swap-fee reserve for offer (generator side only).
+func feeOn(offer sdk.Int, gp liqtypes.GenericParams) sdk.Int {
+	return gp.SwapFeeRate.MulInt(offer).Ceil().TruncateInt()
+}
+
+func (w *World) genLimit(r *Rng) *Event {
+	pairs := w.dexPairs()
+	if len(pairs) == 0 {
+		return nil
+	}
+	pair := pairs[r.Intn(len(pairs))]
+	a := w.dexUser(r)
+	gp := w.dexParams(pair.AppId)
+	prec := int(gp.TickPrecision)
+	ref := w.dexRefPrice(pair)
+	buy := r.Bool()
+	var price sdk.Dec
+	mode := r.Intn(12)
+	lo, hi := liqtypes.PriceLimits(ref, gp.MaxPriceLimitRatio, prec)
+	switch mode {
+	case 0: // exactly at a price limit
+		if buy == r.Chance(3, 4) {
+			price = hi
+		} else {
+			price = lo
+		}
+		w.Stats.Probe("dex.gen.price_at_limit")
+	case 1: // beyond the limits (rejected once a last price exists)
+		if r.Bool() {
+			price = hi.Mul(decFrac(r.Range(101, 150), 100))
+		} else {
+			price = lo.Mul(decFrac(r.Range(60, 99), 100))
+		}
+	case 2, 3, 4: // off tick, many digits
+		price = ref.Mul(decFrac(r.Range(9700000, 10300000), 10000000))
+		w.Stats.Probe("dex.gen.price_off_tick")
+	default:
+		if buy {
+			price = tickDown(ref.Mul(decFrac(r.Range(960, 1050), 1000)), prec)
+		} else {
+			price = tickUp(ref.Mul(decFrac(r.Range(950, 1040), 1000)), prec)
+		}
+	}
+	if !price.IsPositive() {
+		return nil
+	}
+	offerDenom, demandDenom := pair.QuoteCoinDenom, pair.BaseCoinDenom
+	dir := liqtypes.OrderDirectionBuy
+	if !buy {
+		offerDenom, demandDenom = pair.BaseCoinDenom, pair.QuoteCoinDenom
+		dir = liqtypes.OrderDirectionSell
+	}
+	bal := w.Bal(a.Addr, offerDenom)
+	if bal.LT(sdk.NewInt(1000)) {
+		return nil
+	}
+	// amount in base units
+	maxBase := bal.QuoRaw(3)
+	if buy {
+		maxBase = bal.ToLegacyDec().QuoInt64(3).Quo(price).TruncateInt()
+	}
+	if maxBase.LT(sdk.NewInt(200)) {
+		return nil
+	}
+	amt := logAmt(r, sdk.NewInt(100), maxBase)
+	if r.Chance(1, 12) {
+		amt = sdk.NewInt(r.Range(100, 130)) // tiny orders: "too small" sweep, zero-quote sells
+	}
+	need := amm.OfferCoinAmount(amm.Buy, price, amt)
+	if !buy {
+		need = amt
+	}
+	offer := need.Add(feeOn(need, gp)).AddRaw(1)
+	switch r.Intn(8) {
+	case 0:
+		offer = offer.AddRaw(r.Range(1, 100000)) // surplus is simply not taken
+	case 1:
+		offer = need // no room for the fee reserve: rejected when the fee rate is positive
+	}
+	if offer.GT(bal) {
+		return nil
+	}
+	msg := liqtypes.NewMsgLimitOrder(pair.AppId, a.Addr, pair.Id, dir, sdk.NewCoin(offerDenom, offer), demandDenom, price, amt, w.dexLifespan(r, gp))
+	return w.TxEvent("order.limit", a, msg)
+}
+
+func (w *World) genMarket(r *Rng) *Event {
+	pairs := w.dexPairs()
+	var c []liqtypes.Pair
+	for _, p := range pairs {
+		if p.LastPrice != nil {
+			c = append(c, p)
+		}
+	}
+	if len(c) == 0 {
+		if len(pairs) == 0 || !r.Chance(1, 6) {
+			return nil
+		}
+		c = pairs // rejected: no last price
+	}
+	pair := c[r.Intn(len(c))]
+	a := w.dexUser(r)
+	gp := w.dexParams(pair.AppId)
+	ref := w.dexRefPrice(pair)
+	buy := r.Bool()
+	offerDenom, demandDenom := pair.QuoteCoinDenom, pair.BaseCoinDenom
+	dir := liqtypes.OrderDirectionBuy
+	if !buy {
+		offerDenom, demandDenom = pair.BaseCoinDenom, pair.QuoteCoinDenom
+		dir = liqtypes.OrderDirectionSell
+	}
+	bal := w.Bal(a.Addr, offerDenom)
+	maxP := ref.Mul(sdk.OneDec().Add(gp.MaxPriceLimitRatio))
+	maxBase := bal.QuoRaw(4)
+	if buy {
+		maxBase = bal.ToLegacyDec().QuoInt64(4).Quo(maxP).TruncateInt()
+	}
+	if maxBase.LT(sdk.NewInt(200)) {
+		return nil
+	}
+	amt := logAmt(r, sdk.NewInt(100), maxBase)
+	need := amt
+	if buy {
+		need = amm.OfferCoinAmount(amm.Buy, maxP, amt)
+	}
+	offer := need.Add(feeOn(need, gp)).AddRaw(1)
+	if offer.GT(bal) {
+		return nil
+	}
+	msg := liqtypes.NewMsgMarketOrder(pair.AppId, a.Addr, pair.Id, dir, sdk.NewCoin(offerDenom, offer), demandDenom, amt, w.dexLifespan(r, gp))
+	return w.TxEvent("order.market", a, msg)
+}
+
+func (w *World) genMM(r *Rng) *Event {
+	pairs := w.dexPairs()
+	if len(pairs) == 0 {
+		return nil
+	}
+	pair := pairs[r.Intn(len(pairs))]
+	a := w.dexUser(r)
+	gp := w.dexParams(pair.AppId)
+	prec := int(gp.TickPrecision)
+	ref := w.dexRefPrice(pair)
+	lo, hi := liqtypes.PriceLimits(ref, gp.MaxPriceLimitRatio, prec)
+	clamp := func(p sdk.Dec) sdk.Dec {
+		if p.LT(lo) {
+			return lo
+		}
+		if p.GT(hi) {
+			return hi
+		}
+		return p
+	}
+	minSell := clamp(tickUp(ref.Mul(decFrac(r.Range(995, 1030), 1000)), prec))
+	maxSell := clamp(tickUp(minSell.Mul(decFrac(r.Range(1000, 1080), 1000)), prec))
+	maxBuy := clamp(tickDown(ref.Mul(decFrac(r.Range(970, 1005), 1000)), prec))
+	minBuy := clamp(tickDown(maxBuy.Mul(decFrac(r.Range(920, 1000), 1000)), prec))
+	if minBuy.GT(maxBuy) || minSell.GT(maxSell) {
+		return nil
+	}
+	balB := w.Bal(a.Addr, pair.BaseCoinDenom)
+	balQ := w.Bal(a.Addr, pair.QuoteCoinDenom)
+	sellAmt, buyAmt := sdk.ZeroInt(), sdk.ZeroInt()
+	if r.Chance(4, 5) && balB.GT(sdk.NewInt(100000)) {
+		sellAmt = logAmt(r, sdk.NewInt(2000), balB.QuoRaw(5))
+	}
+	maxBuyBase := balQ.ToLegacyDec().QuoInt64(5).Quo(maxBuy).TruncateInt()
+	if r.Chance(4, 5) && maxBuyBase.GT(sdk.NewInt(4000)) {
+		buyAmt = logAmt(r, sdk.NewInt(2000), maxBuyBase)
+	}
+	if sellAmt.IsZero() && buyAmt.IsZero() {
+		return nil
+	}
+	if r.Chance(1, 10) {
+		maxSell = maxSell.Mul(decFrac(1000037, 1000000)) // off tick: rejected
+	}
+	msg := liqtypes.NewMsgMMOrder(pair.AppId, a.Addr, pair.Id, maxSell, minSell, sellAmt, maxBuy, minBuy, buyAmt, w.dexLifespan(r, gp))
+	return w.TxEvent("order.mm", a, msg)
+}
+
+func liveStatus(s liqtypes.OrderStatus) bool {
+	return s == liqtypes.OrderStatusNotExecuted || s == liqtypes.OrderStatusNotMatched || s == liqtypes.OrderStatusPartiallyMatched
+}
+
+func (w *World) genCancel(r *Rng) *Event {
+	ctx := w.Ctx()
+	// try a few users for one with a live order
+	for try := 0; try < 4; try++ {
+		a := w.dexUser(r)
+		var live []liqtypes.Order
+		for _, app := range w.Dex.AppIDs {
+			for _, o := range w.App.LiquidityKeeper.GetOrdersByOrderer(ctx, app, a.Addr) {
+				if liveStatus(o.Status) {
+					live = append(live, o)
+				}
+			}
+		}
+		if len(live) == 0 {
+			continue
+		}
+		// prefer orders from earlier batches (cancellable); sometimes a same-batch one (rejected)
+		var old []liqtypes.Order
+		for _, o := range live {
+			pair, _ := w.App.LiquidityKeeper.GetPair(ctx, o.AppId, o.PairId)
+			if o.BatchId < pair.CurrentBatchId {
+				old = append(old, o)
+			}
+		}
+		pick := live
+		if len(old) > 0 && r.Chance(7, 8) {
+			pick = old
+		} else if len(old) == 0 && !r.Chance(1, 5) {
+			continue
+		}
+		o := pick[r.Intn(len(pick))]
+		signer := a
+		if r.Chance(1, 15) {
+			signer = w.dexUser(r) // possibly someone else's order: unauthorized
+		}
+		return w.TxEvent("order.cancel", signer, liqtypes.NewMsgCancelOrder(o.AppId, signer.Addr, o.PairId, o.Id))
+	}
+	return nil
+}
+
+func (w *World) genCancelAll(r *Rng) *Event {
+	a := w.dexUser(r)
+	app := w.Dex.AppIDs[r.Intn(len(w.Dex.AppIDs))]
+	var ids []uint64
+	pairs := w.App.LiquidityKeeper.GetAllPairs(w.Ctx(), app)
+	switch r.Intn(4) {
+	case 0:
+	case 1:
+		if len(pairs) > 0 {
+			ids = []uint64{pairs[r.Intn(len(pairs))].Id}
+		}
+	case 2:
+		for _, p := range pairs {
+			ids = append(ids, p.Id)
+		}
+	default:
+		if r.Chance(1, 3) {
+			ids = []uint64{99}
+		}
+	}
+	return w.TxEvent("order.cancel_all", a, liqtypes.NewMsgCancelAllOrders(app, a.Addr, ids))
+}
+
+func (w *World) genCancelMM(r *Rng) *Event {
+	ctx := w.Ctx()
+	pairs := w.dexPairs()
+	if len(pairs) == 0 {
+		return nil
+	}
+	for try := 0; try < 6; try++ {
+		a := w.dexUser(r)
+		pair := pairs[r.Intn(len(pairs))]
+		if _, found := w.App.LiquidityKeeper.GetMMOrderIndex(ctx, a.Addr, pair.AppId, pair.Id); found {
+			return w.TxEvent("order.cancel_mm", a, liqtypes.NewMsgCancelMMOrder(pair.AppId, a.Addr, pair.Id))
+		}
+	}
+	if r.Chance(1, 5) {
+		a := w.dexUser(r)
+		pair := pairs[r.Intn(len(pairs))]
+		return w.TxEvent("order.cancel_mm", a, liqtypes.NewMsgCancelMMOrder(pair.AppId, a.Addr, pair.Id))
+	}
+	return nil
+}
+
+func (w *World) pickPool(r *Rng, enabledOnly bool) (dexPool, bool) {
+	pools := w.dexPools()
+	var c []dexPool
+	for _, p := range pools {
+		if !enabledOnly || !p.Disabled {
+			c = append(c, p)
+		}
+	}
+	if len(c) == 0 {
+		return dexPool{}, false
+	}
+	return c[r.Intn(len(c))], true
+}
+
+func (w *World) depositCoins(r *Rng, a *Actor, pool dexPool) sdk.Coins {
+	res := pool.GetReserveAddress()
+	rx := w.Bal(res, pool.Pair.QuoteCoinDenom)
+	ry := w.Bal(res, pool.Pair.BaseCoinDenom)
+	bx := w.Bal(a.Addr, pool.Pair.QuoteCoinDenom)
+	by := w.Bal(a.Addr, pool.Pair.BaseCoinDenom)
+	// fraction of the reserves, log-uniform 1e-5 .. 0.5
+	f := int64(pow(10, 1+r.Float()*4.7)) // 10 .. 500000  (per million)
+	x := rx.MulRaw(f).QuoRaw(1_000_000)
+	y := ry.MulRaw(f).QuoRaw(1_000_000)
+	switch r.Intn(8) {
+	case 0: // skewed
+		x = x.MulRaw(r.Range(50, 300)).QuoRaw(100)
+	case 1:
+		y = y.MulRaw(r.Range(50, 300)).QuoRaw(100)
+	case 2: // dust-sized
+		x, y = sdk.NewInt(r.Range(1, 50)), sdk.NewInt(r.Range(1, 50))
+	case 3: // one coin only
+		if r.Bool() {
+			x = sdk.ZeroInt()
+		} else {
+			y = sdk.ZeroInt()
+		}
+	case 4:
+		x = x.AddRaw(r.Range(-3, 3))
+		y = y.AddRaw(r.Range(-3, 3))
+	}
+	if x.GT(bx.QuoRaw(2)) {
+		x = bx.QuoRaw(2)
+	}
+	if y.GT(by.QuoRaw(2)) {
+		y = by.QuoRaw(2)
+	}
+	var coins sdk.Coins
+	if x.IsPositive() {
+		coins = coins.Add(sdk.NewCoin(pool.Pair.QuoteCoinDenom, x))
+	}
+	if y.IsPositive() {
+		coins = coins.Add(sdk.NewCoin(pool.Pair.BaseCoinDenom, y))
+	}
+	return coins
+}
+
+func (w *World) genDeposit(r *Rng, farm bool) *Event {
+	pool, ok := w.pickPool(r, !r.Chance(1, 10))
+	if !ok {
+		return nil
+	}
+	a := w.dexUser(r)
+	coins := w.depositCoins(r, a, pool)
+	if coins.Empty() {
+		return nil
+	}
+	if farm {
+		return w.TxEvent("lp.deposit_farm", a, liqtypes.NewMsgDepositAndFarm(pool.AppId, a.Addr, pool.Id, coins))
+	}
+	return w.TxEvent("lp.deposit", a, liqtypes.NewMsgDeposit(pool.AppId, a.Addr, pool.Id, coins))
+}
+
+// holders of a pool coin among the users, with their liquid balance.
+func (w *World) poolHolders(pool dexPool) (out []*Actor) {
+	for _, i := range w.Dex.Users {
+		if w.Bal(w.Actors[i].Addr, pool.PoolCoinDenom).IsPositive() {
+			out = append(out, w.Actors[i])
+		}
+	}
+	return
+}
+
+func (w *World) genWithdraw(r *Rng) *Event {
+	for try := 0; try < 4; try++ {
+		pool, ok := w.pickPool(r, !r.Chance(1, 10))
+		if !ok {
+			return nil
+		}
+		hs := w.poolHolders(pool)
+		if len(hs) == 0 {
+			continue
+		}
+		a := hs[r.Intn(len(hs))]
+		bal := w.Bal(a.Addr, pool.PoolCoinDenom)
+		amt := bal
+		switch r.Intn(5) {
+		case 0, 1: // everything (so that "last LP leaves" happens)
+		case 2:
+			amt = sdk.NewInt(r.Range(1, 1000))
+		default:
+			amt = bal.MulRaw(r.Range(1, 99)).QuoRaw(100)
+		}
+		if amt.GT(bal) {
+			amt = bal
+		}
+		if !amt.IsPositive() {
+			continue
+		}
+		return w.TxEvent("lp.withdraw", a, liqtypes.NewMsgWithdraw(pool.AppId, a.Addr, pool.Id, sdk.NewCoin(pool.PoolCoinDenom, amt)))
+	}
+	return nil
+}
+
+func (w *World) genFarm(r *Rng) *Event {
+	for try := 0; try < 4; try++ {
+		pool, ok := w.pickPool(r, false)
+		if !ok {
+			return nil
+		}
+		hs := w.poolHolders(pool)
+		if len(hs) == 0 {
+			continue
+		}
+		a := hs[r.Intn(len(hs))]
+		bal := w.Bal(a.Addr, pool.PoolCoinDenom)
+		amt := bal.MulRaw(r.Range(1, 100)).QuoRaw(100)
+		if r.Chance(1, 8) {
+			amt = sdk.NewInt(r.Range(1, 100))
+		}
+		if amt.GT(bal) || !amt.IsPositive() {
+			amt = bal
+		}
+		return w.TxEvent("farm.farm", a, liqtypes.NewMsgFarm(pool.AppId, pool.Id, a.Addr, sdk.NewCoin(pool.PoolCoinDenom, amt)))
+	}
+	return nil
+}
+
+func (w *World) farmedTotal(pool dexPool, a *Actor) sdk.Int {
+	ctx := w.Ctx()
+	tot := sdk.ZeroInt()
+	if af, ok := w.App.LiquidityKeeper.GetActiveFarmer(ctx, pool.AppId, pool.Id, a.Addr); ok {
+		tot = tot.Add(af.FarmedPoolCoin.Amount)
+	}
+	if qf, ok := w.App.LiquidityKeeper.GetQueuedFarmer(ctx, pool.AppId, pool.Id, a.Addr); ok {
+		for _, q := range qf.QueudCoins {
+			tot = tot.Add(q.FarmedPoolCoin.Amount)
+		}
+	}
+	return tot
+}
+
+func (w *World) genUnfarm(r *Rng, withdraw bool) *Event {
+	pools := w.dexPools()
+	if len(pools) == 0 {
+		return nil
+	}
+	for try := 0; try < 8; try++ {
+		pool := pools[r.Intn(len(pools))]
+		a := w.dexUser(r)
+		tot := w.farmedTotal(pool, a)
+		if !tot.IsPositive() {
+			continue
+		}
+		amt := tot
+		switch r.Intn(6) {
+		case 0, 1:
+		case 2:
+			amt = tot.AddRaw(r.Range(1, 10)) // more than farmed: rejected
+		case 3:
+			amt = sdk.NewInt(r.Range(1, 100))
+			if amt.GT(tot) {
+				amt = tot
+			}
+		default:
+			amt = tot.MulRaw(r.Range(1, 99)).QuoRaw(100)
+			if !amt.IsPositive() {
+				amt = tot
+			}
+		}
+		c := sdk.NewCoin(pool.PoolCoinDenom, amt)
+		if withdraw {
+			return w.TxEvent("farm.unfarm_withdraw", a, liqtypes.NewMsgUnfarmAndWithdraw(pool.AppId, pool.Id, a.Addr, c))
+		}
+		return w.TxEvent("farm.unfarm", a, liqtypes.NewMsgUnfarm(pool.AppId, pool.Id, a.Addr, c))
+	}
+	return nil
+}
+
+func (w *World) genPoolCreate(r *Rng) *Event {
+	pairs := w.dexPairs()
+	if len(pairs) == 0 {
+		return nil
+	}
+	pair := pairs[r.Intn(len(pairs))]
+	a := w.dexUser(r)
+	gp := w.dexParams(pair.AppId)
+	prec := int(gp.TickPrecision)
+	ref := w.dexRefPrice(pair)
+	by := w.Bal(a.Addr, pair.BaseCoinDenom)
+	bx := w.Bal(a.Addr, pair.QuoteCoinDenom)
+	y := by.QuoRaw(r.Range(5, 50))
+	x := ref.MulInt(y).TruncateInt()
+	if x.GT(bx.QuoRaw(3)) {
+		x = bx.QuoRaw(3)
+		y = x.ToLegacyDec().Quo(ref).TruncateInt()
+	}
+	if !x.IsPositive() || !y.IsPositive() {
+		return nil
+	}
+	coins := sdk.NewCoins(sdk.NewCoin(pair.QuoteCoinDenom, x), sdk.NewCoin(pair.BaseCoinDenom, y))
+	hasBasic := false
+	for _, pl := range w.App.LiquidityKeeper.GetPoolsByPair(w.Ctx(), pair.AppId, pair.Id) {
+		if pl.Type == liqtypes.PoolTypeBasic && !pl.Disabled {
+			hasBasic = true
+		}
+	}
+	if !hasBasic && r.Chance(2, 3) {
+		return w.TxEvent("pool.create", a, liqtypes.NewMsgCreatePool(pair.AppId, a.Addr, pair.Id, coins))
+	}
+	p0 := tickDown(ref, prec)
+	minP := tickDown(p0.Mul(decFrac(r.Range(40, 97), 100)), prec)
+	maxP := tickDown(p0.Mul(decFrac(r.Range(103, 250), 100)), prec)
+	init := p0
+	switch r.Intn(6) {
+	case 0:
+		init = minP
+	case 1:
+		init = maxP
+	case 2:
+		init = tickDown(minP.Add(maxP).QuoInt64(2), prec)
+	}
+	return w.TxEvent("pool.create_ranged", a, liqtypes.NewMsgCreateRangedPool(pair.AppId, a.Addr, pair.Id, coins, minP, maxP, init))
+}
+
+func (w *World) genGauge(r *Rng, a *Actor, pool dexPool, valid bool) *Event {
+	denom := w.Dex.Reward.Denom
+	bal := w.Bal(a.Addr, denom)
+	if bal.LT(sdk.NewInt(100000)) {
+		return nil
+	}
+	e := []uint64{1, 1, 2, 3, 5, 7, 11, 20}[r.Intn(8)]
+	var d int64
+	switch r.Intn(6) {
+	case 0:
+		d = int64(e) // one unit per epoch
+	case 1:
+		d = int64(e)*r.Range(1, 1000) + r.Range(1, int64(e)) // remainder (may be 0 mod e when e == 1)
+	case 2:
+		d = r.Range(1, 1_000_000)*int64(e) + int64(e) - 1
+	default:
+		d = r.Range(1000, 2_000_000_000)
+	}
+	dur := []time.Duration{12 * time.Hour, 12 * time.Hour, 13 * time.Hour, 24 * time.Hour}[r.Intn(4)]
+	start := w.Hdr.Time.Add(time.Duration(r.Range(0, 7200)) * time.Second)
+	if !valid {
+		switch r.Intn(4) {
+		case 0:
+			d = int64(e) - 1 // deposit smaller than the number of epochs
+			if d < 1 {
+				d, e = 1, 2
+			}
+		case 1:
+			dur = 11 * time.Hour
+		case 2:
+			start = w.Hdr.Time.Add(-time.Hour)
+		default:
+			start = w.Hdr.Time.Add(30 * time.Hour)
+		}
+	}
+	if sdk.NewInt(d).GT(bal) {
+		return nil
+	}
+	msg := rewardstypes.NewMsgCreateGauge(pool.AppId, a.Addr, start, rewardstypes.LiquidityGaugeTypeID, dur, sdk.NewCoin(denom, sdk.NewInt(d)), e)
+	master := r.Chance(1, 6)
+	msg.Kind = &rewardstypes.MsgCreateGauge_LiquidityMetaData{LiquidityMetaData: &rewardstypes.LiquidtyGaugeMetaData{PoolId: pool.Id, IsMasterPool: master, ChildPoolIds: []uint64{}}}
+	return w.TxEvent("gauge.create", a, msg)
+}
+
+func dexGens(w *World) []OpGen {
+	jumpW, gaugeW := 0, 0
+	if w.Dex != nil {
+		jumpW, gaugeW = w.Dex.JumpW, w.Dex.GaugeW
+	}
+	ob, lb, fb := 1+int(w.Cfg.K("order_boost")), 1+int(w.Cfg.K("lp_boost")), 1+int(w.Cfg.K("farm_boost"))
+	return []OpGen{
+		{"order.limit", 30 * ob, func(w *World, r *Rng) *Event { return w.genLimit(r) }},
+		{"order.market", 8 * ob, func(w *World, r *Rng) *Event { return w.genMarket(r) }},
+		{"order.mm", 7 * ob, func(w *World, r *Rng) *Event { return w.genMM(r) }},
+		{"order.cancel", 8 * ob, func(w *World, r *Rng) *Event { return w.genCancel(r) }},
+		{"order.cancel_all", 2 * ob, func(w *World, r *Rng) *Event { return w.genCancelAll(r) }},
+		{"order.cancel_mm", 4 * ob, func(w *World, r *Rng) *Event { return w.genCancelMM(r) }},
+		{"lp.deposit", 9 * lb, func(w *World, r *Rng) *Event { return w.genDeposit(r, false) }},
+		{"lp.withdraw", 7 * lb, func(w *World, r *Rng) *Event { return w.genWithdraw(r) }},
+		{"lp.deposit_farm", 4 * lb, func(w *World, r *Rng) *Event { return w.genDeposit(r, true) }},
+		{"farm.farm", 6 * fb, func(w *World, r *Rng) *Event { return w.genFarm(r) }},
+		{"farm.unfarm", 4 * fb, func(w *World, r *Rng) *Event { return w.genUnfarm(r, false) }},
+		{"farm.unfarm_withdraw", 4 * lb, func(w *World, r *Rng) *Event { return w.genUnfarm(r, true) }},
+		{"pool.create", 1, func(w *World, r *Rng) *Event { return w.genPoolCreate(r) }},
+		{"gauge.create", gaugeW, func(w *World, r *Rng) *Event {
+			pool, ok := w.pickPool(r, true)
+			if !ok {
+				return nil
+			}
+			return w.genGauge(r, w.dexUser(r), pool, !r.Chance(1, 6))
+		}},
+		{"env.timejump", jumpW, func(w *World, r *Rng) *Event {
+			gap := r.Range(12*3600, 30*3600)
+			if r.Chance(1, 6) {
+				gap = r.Range(30*3600, 80*3600) // skips more than one epoch duration
+			}
+			return &Event{Kind: "block", Tag: "env.timejump", GapS: gap, N: 1, Fault: "clock.gap"}
+		}},
+		{"env.unsolicited", 1, func(w *World, r *Rng) *Event {
+			if w.Cfg.K("unsolicited") == 0 {
+				return nil
+			}
+			a := w.dexUser(r)
+			var to sdk.AccAddress
+			var denoms []string
+			pools := w.dexPools()
+			pairs := w.dexPairs()
+			switch r.Intn(5) {
+			case 0:
+				to = liqtypes.GlobalEscrowAddress
+			case 1:
+				if len(pairs) == 0 {
+					return nil
+				}
+				pr := pairs[r.Intn(len(pairs))]
+				to = pr.GetEscrowAddress()
+				denoms = []string{pr.BaseCoinDenom, pr.QuoteCoinDenom}
+			case 2:
+				if len(pools) == 0 {
+					return nil
+				}
+				pl := pools[r.Intn(len(pools))]
+				to = pl.GetReserveAddress()
+				denoms = []string{pl.Pair.BaseCoinDenom, pl.Pair.QuoteCoinDenom}
+			case 3:
+				to = w.ModAddr(liqtypes.ModuleName)
+				for _, pl := range pools {
+					denoms = append(denoms, pl.PoolCoinDenom)
+				}
+			default:
+				to = w.ModAddr(rewardstypes.ModuleName)
+				denoms = []string{w.Dex.Reward.Denom, "ucmdx"}
+			}
+			if len(denoms) == 0 {
+				for _, as := range w.Dex.Traded {
+					denoms = append(denoms, as.Denom)
+				}
+				for _, pl := range pools {
+					denoms = append(denoms, pl.PoolCoinDenom)
+				}
+			}
+			d := denoms[r.Intn(len(denoms))]
+			bal := w.Bal(a.Addr, d)
+			if !bal.IsPositive() {
+				return nil
+			}
+			amt := sdk.NewInt(r.Range(1, 100000))
+			if amt.GT(bal) {
+				amt = bal
+			}
+			ev := w.TxEvent("env.unsolicited", a, banktypes.NewMsgSend(a.Addr, to, sdk.NewCoins(sdk.NewCoin(d, amt))))
+			ev.Fault = "env.unsolicited"
+			return ev
+		}},
+	}
+}
+
+func init() {
+	scenarios["dex"] = &Scenario{
+		Name: "dex", NActors: dexActors, Draw: drawDexConfig,
+		Setup:  func(w *World) { setupDex(w); w.warmOracle(); dexPostWarm(w) },
+		Gens:   dexGens,
+		PBlock: 230,
+	}
+}
